@@ -70,6 +70,8 @@ type Runner struct {
 	heldISFrom     string // its sender, once seen
 	heldISUntil    int64
 	dropAppendAcks bool // acknowledgements of AppendEntries that carry entries are lost (inheritedtail macro)
+	aeBudget       map[string]int // per sender: that many AppendEntries carrying entries get through to each receiver, the rest are lost; absent = no limit (figure8 macro)
+	aeUsed         map[string]int // "from>to" -> requests let through so far
 	quiet          bool
 	faults         []*faultSpec
 	Feat           map[string]int
@@ -298,6 +300,17 @@ func (r *Runner) policy(m *sim.Msg, resp bool) sim.Verdict {
 	if resp && m.Kind == sim.KSnapshot && m.ID == r.slowISResp && r.W.Now() < r.slowISUntil && !r.quiet {
 		m.ReadyAt = r.slowISUntil
 		return sim.VHold
+	}
+	if per, limited := r.aeBudget[m.From]; limited && !resp && !r.quiet && !m.Marked {
+		if ae, ok := m.Req.(*raft.AppendEntriesRequest); ok && len(ae.Entries) > 0 {
+			key := m.From + ">" + m.To
+			used := r.aeUsed[key]
+			if used >= per {
+				return sim.VDrop
+			}
+			m.Marked = true
+			r.aeUsed[key] = used + 1
+		}
 	}
 	if r.dropAppendAcks && resp && !r.quiet {
 		if ae, ok := m.Req.(*raft.AppendEntriesRequest); ok && len(ae.Entries) > 0 {
